@@ -150,11 +150,27 @@ def run(ctx, chk):
         db_, _ = find_parse_call(drv, "DataParser::parse")
         targets = [b for b in (pb, db_) if b is not None]
         gates = []
-        for bi, t in M.calls_in(drv):
+        # locals holding (a reference to) the undefined_labels field of the preprocessor context
+        undef_refs = set()
+        for bb in drv["blocks"]:
+            for s_ in bb["stmts"]:
+                if s_[0] == "assign" and not s_[1]["p"] and s_[2][0] in ("use", "ref"):
+                    src = s_[2][1][1] if s_[2][0] == "use" and s_[2][1][0] in ("copy", "move") else (s_[2][1] if s_[2][0] == "ref" else None)
+                    if src is None:
+                        continue
+                    if any(isinstance(e, list) and e[0] == "f" and e[2] == "undefined_labels" for e in src["p"]) or (src["l"] in undef_refs and not [e for e in src["p"] if e != "deref"]):
+                        undef_refs.add(s_[1]["l"])
+        for _ in range(3):
+            for bb in drv["blocks"]:
+                for s_ in bb["stmts"]:
+                    if s_[0] == "assign" and not s_[1]["p"] and s_[2][0] == "ref" and s_[2][1]["l"] in undef_refs and not [e for e in s_[2][1]["p"] if e != "deref"]:
+                        undef_refs.add(s_[1]["l"])
+        for bi, t in sorted(M.calls_in(drv), key=lambda x: cfg.rpo_index.get(x[0], 10 ** 9)):
             d = t[1].get("def") or ""
             if d.endswith("preprocess::preprocess"):
                 gates.append(("preprocess", bi))
-            elif "hash_set::Iter" in d and d.endswith("next"):
+            elif any(a[0] in ("copy", "move") and a[1]["l"] in undef_refs for a in t[2]) and not any(g == "undefined-labels" for g, _ in gates):
+                # first use of the preprocessor's undefined_labels set (however it is iterated)
                 gates.append(("undefined-labels", bi))
             elif d.endswith("HashMap::<K, V, S, A>::get"):
                 # the lookup of "start": its key argument is the constant "start"
